@@ -227,14 +227,27 @@ def _alarm(signum, frame):
     raise Timeout()
 
 
-def with_timeout(fn, seconds=3.0):
-    old = signal.signal(signal.SIGALRM, _alarm)
-    signal.setitimer(signal.ITIMER_REAL, seconds)
+TIMEOUT_CPU_S = 5.0
+
+
+def with_timeout(fn, seconds=TIMEOUT_CPU_S):
+    """Run fn under a limit on the *CPU time* of this process (robust against a loaded machine)."""
+    warm_up()
+    old = signal.signal(signal.SIGVTALRM, _alarm)
+    signal.setitimer(signal.ITIMER_VIRTUAL, seconds)
     try:
         return fn()
     finally:
-        signal.setitimer(signal.ITIMER_REAL, 0)
-        signal.signal(signal.SIGALRM, old)
+        signal.setitimer(signal.ITIMER_VIRTUAL, 0)
+        signal.signal(signal.SIGVTALRM, old)
+
+
+def warm_up():
+    """PLY builds the OAL tables on the first parse of a process (seconds): keep that out of the timed region."""
+    if 'warm' not in _proc:
+        from bridgepoint import oal
+        oal.parse('return 1;')
+        _proc['warm'] = True
 
 
 def run_reference(tree, pop_name, max_steps=600):
@@ -270,7 +283,7 @@ def check_program(tree, pop_name, text=None, style=None):
     text = text if text is not None else R.render(tree, style)
     result, snap, err = run_real(text, pop_name)
     if err == 'timeout':
-        return [('bounded-time', 'no result within 3 s', 'terminates (the reference needs < 600 steps)')]
+        return [('bounded-time', 'no result within %g s of CPU time' % TIMEOUT_CPU_S, 'terminates (the reference needs < 600 steps)')]
     if err:
         return [('result-and-final-population', err, dict(returns=plain(ref_result)))]
     diff = differences(ref_result, ref_snap, result, snap)
@@ -281,7 +294,7 @@ def check_program(tree, pop_name, text=None, style=None):
 
 # ------------------------------------------------------------------------------------------------- generator
 VARS = {'int': ['x', 'y', 'z'], 'str': ['u', 'v'], 'bool': ['p', 'q'], 'id': ['k'],
-        'A': ['a1', 'a2'], 'B': ['b1', 'b2'], 'L': ['l1'], 'A*': ['as1'], 'B*': ['bs1'], 'L*': ['ls1']}
+        'A': ['a1', 'a2'], 'B': ['b1', 'b2'], 'L': ['l1', 'l2'], 'A*': ['as1'], 'B*': ['bs1'], 'L*': ['ls1']}
 TYPE_OF = dict(integer='int', string='str', boolean='bool', unique_id='id')
 
 
@@ -598,7 +611,11 @@ class Gen(object):
             self.declare(c, 'int')
             bound = self.ch.pick(self.p.get('bounds', [1, 2, 3]))
             body = self.block(True, depth + 1)
-            body.append(['assign', ['var', c], ['bin', '+', ['var', c], ['int', 1]]])
+            inc = ['assign', ['var', c], ['bin', '+', ['var', c], ['int', 1]]]
+            if self.ch.chance(self.p.get('inc_first', 0.5)):     # increment first: `continue` keeps the loop finite
+                body.insert(0, inc)
+            else:
+                body.append(inc)
             out = [['assign', ['var', c], ['int', 0]], ['while', ['bin', self.ch.pick(self.p.get('while_ops', ['<', '<=', '!='])), ['var', c], ['int', bound]], body]]
         else:
             cond = self.cond()
@@ -637,7 +654,8 @@ class Gen(object):
         cands = [(['selfrom', 'any', 'a1', 'A', None], 'a1', 'A'), (['selfrom', 'any', 'b1', 'B', None], 'b1', 'B'),
                  (['selfrom', 'any', 'a2', 'A', ['bin', '==', ['attr', ['selected'], 'i'], ['int', 2]]], 'a2', 'A'),
                  (['selfrom', 'any', 'b2', 'B', ['bin', '>', ['attr', ['selected'], 'n'], ['int', 10]]], 'b2', 'B'),
-                 (['selfrom', 'any', 'l1', 'L', None], 'l1', 'L'), (['selfrom', 'many', 'as1', 'A', None], 'as1', 'A*'),
+                 (['selfrom', 'any', 'l1', 'L', None], 'l1', 'L'), (['selfrom', 'any', 'l2', 'L', None], 'l2', 'L'),
+                 (['selfrom', 'many', 'as1', 'A', None], 'as1', 'A*'),
                  (['selfrom', 'many', 'bs1', 'B', None], 'bs1', 'B*'),
                  (['create', 'a2', 'A'], 'a2', 'A'), (['create', 'b2', 'B'], 'b2', 'B'), (['create', 'l1', 'L'], 'l1', 'L'),
                  (['assign', ['var', 'x'], ['int', 1]], 'x', 'int'), (['assign', ['var', 'u'], ['str', 'x']], 'u', 'str'),
@@ -647,6 +665,12 @@ class Gen(object):
                 self.declare(var, ty)
                 out.append(stmt)
         return out
+
+    def observation(self, body):
+        """Statements that make the final values of the top-level variables visible in the final population
+        (an extra L instance whose w encodes them).  Variables named in a delete statement, and sets when anything is
+        deleted, are left alone: touching a deleted instance is outside the property."""
+        return observe(self.scopes[0], body, self.s)
 
     def program(self, statements):
         self.ret = self.ch.pick(['int', 'int', 'bool', 'str'])
@@ -660,10 +684,54 @@ class Gen(object):
             e = self.expr(self.ret, self.p['depth'])
             if e is not None:
                 tail = [['return', e]]
-        return pre + body + tail
+        return pre + body + self.observation(body) + tail
 
 
-FULL_PRELUDE = [['selfrom', 'any', 'a1', 'A', None], ['selfrom', 'any', 'b1', 'B', None],
+def _mentions_delete(stmts, found):
+    for s in stmts:
+        if s[0] == 'delete':
+            found.add(s[1])
+        elif s[0] == 'if':
+            _mentions_delete(s[2], found)
+            for _, b in s[3]:
+                _mentions_delete(b, found)
+            if s[4]:
+                _mentions_delete(s[4], found)
+        elif s[0] == 'while':
+            _mentions_delete(s[2], found)
+        elif s[0] == 'for':
+            _mentions_delete(s[3], found)
+    return found
+
+
+def observe(scope, body, sch):
+    deleted = _mentions_delete(body, set())
+    o = ['var', 'o9']
+    out = [['assign', o, ['int', 0]]]
+
+    def mix(e):
+        return ['assign', o, ['bin', '+', ['bin', '*', o, ['int', 3]], e]]
+    for name in sorted(scope):
+        ty = scope[name]
+        v = ['var', name]
+        if ty == 'int':
+            out.append(mix(v))
+        elif ty == 'bool':
+            out.append(['if', v, [mix(['int', 1])], [], [mix(['int', 2])]])
+        elif ty == 'str':
+            out.append(['if', ['bin', '==', v, ['str', 'x']], [mix(['int', 1])], [[['bin', '==', v, ['str', '']], [mix(['int', 2])]]], [mix(['int', 0])]])
+        elif ty in sch.classes and not deleted:
+            k = [a.name for a in sch.classes[ty] if a.kind == 'plain' and a.ty == 'integer'][0]
+            out.append(['if', ['un', 'not_empty', v], [mix(['attr', v, k])], [], [mix(['int', 1])]])
+        elif ty.endswith('*') and not deleted:
+            k = [a.name for a in sch.classes[ty[:-1]] if a.kind == 'plain' and a.ty == 'integer'][0]
+            out.append(mix(['un', 'cardinality', v]))
+            out.append(['for', 'e9', name, [['assign', o, ['bin', '+', o, ['attr', ['var', 'e9'], k]]]]])
+    out += [['create', 'z9', 'L'], ['assign', ['attr', ['var', 'z9'], 'w'], o]]
+    return out
+
+
+FULL_PRELUDE = [['selfrom', 'any', 'a1', 'A', None], ['selfrom', 'any', 'b1', 'B', None], ['selfrom', 'any', 'l2', 'L', None],
                 ['selfrom', 'many', 'as1', 'A', None], ['create', 'a2', 'A'], ['create', 'b2', 'B'], ['create', 'l1', 'L'],
                 ['assign', ['var', 'x'], ['int', 1]]]
-FULL_PRELUDE_SCOPE = dict(a1='A', b1='B', as1='A*', a2='A', b2='B', l1='L', x='int')
+FULL_PRELUDE_SCOPE = dict(a1='A', b1='B', l2='L', as1='A*', a2='A', b2='B', l1='L', x='int')
